@@ -20,6 +20,7 @@
  */
 #define _GNU_SOURCE
 #include <errno.h>
+#include <dirent.h>
 #include <fcntl.h>
 #include <pthread.h>
 #include <sched.h>
@@ -296,6 +297,19 @@ static void run(int from, int to) {
         else if (!strcmp(c, "unlink")) { int r = unlink(a[1]); say("unlink %s = %d\n", a[1], r < 0 ? -errno : 0); }
         else if (!strcmp(c, "writefile")) { int fd = open(a[1], O_WRONLY | O_CREAT | O_TRUNC, 0644); int r = fd < 0 ? -errno : (int)write(fd, a[2], strlen(a[2])); say("writefile %s = %d\n", a[1], r); if (fd >= 0) close(fd); }
         else if (!strcmp(c, "readfile")) { char b[256]; int fd = open(a[1], O_RDONLY); int r = fd < 0 ? -errno : (int)read(fd, b, sizeof b - 1); if (r >= 0) { b[r] = 0; say("readfile %s = %d %s\n", a[1], r, b); } else say("readfile %s = %d\n", a[1], r); if (fd >= 0) close(fd); }
+        else if (!strcmp(c, "ls")) { /* ls DIR: names, sorted, on one line */
+            DIR *d = opendir(a[1]);
+            if (!d) say("ls %s = %d\n", a[1], -errno);
+            else {
+                char *names[512]; int nn = 0; struct dirent *e;
+                while ((e = readdir(d)) && nn < 512) { if (strcmp(e->d_name, ".") && strcmp(e->d_name, "..")) names[nn++] = strdup(e->d_name); }
+                closedir(d);
+                for (int x = 0; x < nn; x++) for (int y = x + 1; y < nn; y++) if (strcmp(names[x], names[y]) > 0) { char *t = names[x]; names[x] = names[y]; names[y] = t; }
+                char line[8192]; int off = snprintf(line, sizeof line, "ls %s = %d:", a[1], nn);
+                for (int x = 0; x < nn && off < (int)sizeof line - 300; x++) off += snprintf(line + off, sizeof line - off, " %s", names[x]);
+                say("%s\n", line);
+            }
+        }
         else if (!strcmp(c, "mkfifo")) { int r = mknod(a[1], S_IFIFO | 0666, 0); say("mkfifo %s = %d\n", a[1], r < 0 ? -errno : 0); }
         else if (!strcmp(c, "symlink")) { int r = symlink(a[1], a[2]); say("symlink %s = %d\n", a[2], r < 0 ? -errno : 0); }
         else if (!strcmp(c, "mksock")) {
